@@ -85,7 +85,8 @@ func C08_Run(job string) {
 		v.Unfreeze()
 	case "prims":
 		si, ss, sb, sf := z.Int().GT(5).LT(50).Default(7), z.String().Email().Catch("c@d.ee"), z.Bool().True(), z.Float64().GTE(1.5)
-		v.Freeze(si, ss, sb, sf)
+		sp, spl := z.Ptr(z.Int()).NotNil(), z.Ptr(z.Slice(z.Int()).Min(2))
+		v.Freeze(si, ss, sb, sf, sp, spl)
 		v.Concurrently(3, func(k int) {
 			var i int
 			var s string
@@ -109,6 +110,13 @@ func C08_Run(job string) {
 					v.Flag()
 				}
 				_ = e1
+				// pointer nodes: NotNil on a nil pointer, the own test of a pointed-to slice
+				var np *int
+				one := []int{k}
+				pone := &one
+				if len(sp.Validate(&np)["$root"]) != 1 || len(spl.Validate(&pone)["$root"]) != 1 {
+					v.Flag()
+				}
 			}
 		})
 		v.Unfreeze()
